@@ -663,6 +663,11 @@ impl<const N: usize> Subscriptions<N> {
                     // Leaving `reported_at` at the `Instant::MAX` priming sentinel
                     // (rather than stamping it with `now`) is what marks it un-primed.
                     rctx.next_reported_at = Instant::MAX;
+                    // Not primed, but not immortal either: until its first successful
+                    // report `is_expired` measures `max_int` from the resume instant.
+                    if let Some(sub) = rctx.subscription.as_mut() {
+                        sub.resumed_at = now;
+                    }
                     rctx.set_keep();
                     info!(
                         "Resumed persisted subscription {:?}",
@@ -817,6 +822,7 @@ impl<const N: usize> SubscriptionsInner<N> {
             reported_at: Instant::MAX,
             retry_at: Instant::MIN,
             fail_count: 0,
+            resumed_at: Instant::MAX,
             max_seen_attr_change_id,
             // Start at 0 so the priming report delivers every event that was
             // already in the event buffer at subscribe time. The reader will
@@ -1038,6 +1044,14 @@ pub struct Subscription {
     /// Number of consecutive failed report attempts, driving the retry back-off.
     /// Reset to `0` on any successful report.
     fail_count: u8,
+    /// The instant a subscription resumed from the persisted records was re-added
+    /// after a restart; `Instant::MAX` for a subscription accepted in this boot.
+    /// A resumed subscription is not primed, so until its first successful report it
+    /// has no `reported_at` for `is_expired` to measure from. Its last success cannot
+    /// be later than this instant, so `is_expired` measures `max_int` from here
+    /// instead — otherwise a resumed subscription whose subscriber is gone for good
+    /// would be retried (and persisted again) forever.
+    resumed_at: Instant,
     /// The largest attribute change ID from the [`ChangedAttributes`] table this subscription
     /// has already reported on. Entries with a larger change ID represent pending changes the subscription still needs to emit.
     max_seen_attr_change_id: u64,
@@ -1053,7 +1067,16 @@ impl Subscription {
 
     /// Return `true` if the subscription is expired and should be removed, or `false` if it is still active.
     pub fn is_expired(&self, now: Instant) -> bool {
-        self.reported_at
+        // Measured from the last successful report; a resumed subscription that has not
+        // been primed yet is measured from the instant it was resumed (`Instant::MAX`,
+        // i.e. never, for a subscription whose priming is still in progress).
+        let since = if self.reported_at == Instant::MAX {
+            self.resumed_at
+        } else {
+            self.reported_at
+        };
+
+        since
             .checked_add(embassy_time::Duration::from_secs(self.max_int_secs as _))
             .map(|expiry| expiry <= now)
             .unwrap_or(false)
